@@ -136,7 +136,7 @@ def gen_raw(rng, nops):
         elif x < 0.90:
             lines.append("iter")
         elif x < 0.95:
-            lines.append("reserve %d" % rng.choice([0, 1, 2, 3, 5, 9]))
+            lines.append("reserve %d" % rng.choice([0, 1, 2, 3, 5, 9] if rng.random() < 0.85 else [1 << 60, (1 << 60) + 5, 1 << 61]))
         else:
             lines.append("clear")
             present = set()
